@@ -232,6 +232,39 @@ def evaluate(fmt, msg, argname, excname, colour, exc_cache=None):
     return res
 
 
+class BadStrMsg:
+    """a message object (the logging API takes any object) whose __str__ raises"""
+    def __str__(self):
+        raise IndexError("tuple index out of range")
+
+    def __repr__(self):
+        return "<BadStrMsg>"
+
+
+def run_extra(st):
+    """Configurations and message types outside the string grammar: a formatter without datefmt (what
+    logging.config.dictConfig builds from 'class' + 'format'), and message objects whose __str__ raises."""
+    import tornado.log as tl
+    fmts = {"datefmt-none": tl.LogFormatter(color=False, datefmt=None), "off": make_formatter("off"), "on-error": make_formatter("on-error")}
+    for cname, fmt in fmts.items():
+        for msg in ("plain", "two\nlines", BadStrMsg(), 17, None, b"\xffbytes"):
+            for excname in ("none", "lf"):
+                exc_info, exc_text = make_exc(excname)
+                rec = make_record(msg, (), logging.ERROR, exc_info, exc_text)
+                st.ev()
+                st.nontriv(("extra", cname, repr(msg), excname))
+                try:
+                    out = fmt.format(rec)
+                except BaseException as e:  # noqa
+                    st.violation("raised:%s:%s" % (type(e).__name__, "formatter-without-datefmt" if cname == "datefmt-none" else "message-object"),
+                                 "LogFormatter(%s).format(msg=%r, exc=%s) raised %s: %s" % (cname, msg, excname, type(e).__name__, str(e)[:80]),
+                                 {"kind": "extra"})
+                    continue
+                if not isinstance(out, str) or lf_rule(out) != -1:
+                    st.violation("lf-not-indented:extra", "LogFormatter(%s).format(msg=%r, exc=%s) = %r" % (cname, msg, excname, out[:120]),
+                                 {"kind": "extra"})
+
+
 def iter_msgs(kind, tier):
     """yields (message, colour settings to combine it with)"""
     aq, at, join = (A_STR_Q, A_STR_T, "".join) if kind == "str" else (A_BYTES_Q, A_BYTES_T, b"".join)
@@ -282,6 +315,8 @@ class C45(Check):
     # ------------------------------------------------------------------
     def run_partition(self, part, tier, st):
         if part[0] == "safe":
+            if part[1] == 0:
+                run_extra(st)
             return self._run_safe(part[1], tier, st)
         _, kind, r = part
         excs = EXCS_Q if tier == "quick" else EXCS_T
@@ -355,6 +390,11 @@ class C45(Check):
 
     # ------------------------------------------------------------------
     def replay(self, case):
+        if case.get("kind") == "extra":
+            from mc.core import Stats
+            st = Stats()
+            run_extra(st)
+            return repr({k: v[0] for k, v in st.violations.items()}) or "ok"
         import tornado.log as tl
         if "safe" in case:
             val = case["safe"]
